@@ -65,6 +65,7 @@ InitState(p) ==
    once |-> [x \in 1..(P.nonce + 4) |-> [st |-> "idle", owner |-> -1, doneby |-> -1]],
    lzv |-> <<0, 0>>, lzdropped |-> {},
    tls |-> << <<>> >>, dty |-> <<FALSE>>, nm |-> <<-2>>, sc |-> << {} >>,
+   lbl |-> <<-1>>,       \* a user label per task (current::set_label_for_task), inherited by the tasks it spawns
    \* async: hand-written waker slots, JoinHandle slots, abort / detach marks
    flg |-> [f \in 1..P.nflags |-> FALSE], fw |-> [f \in 1..P.nflags |-> -1],
    inpoll |-> <<FALSE>>, det |-> <<FALSE>>, ab |-> <<FALSE>>, canc |-> <<FALSE>>, hasres |-> <<FALSE>>, resv |-> <<0>>, jw |-> <<-1>>, fut |-> <<FALSE>>, jtaken |-> <<FALSE>>,
@@ -271,7 +272,8 @@ Complete(s, t) ==
                              !.hasres = Append(@, FALSE), !.resv = Append(@, 0), !.jw = Append(@, -1), !.jtaken = Append(@, FALSE),
                              !.fut = Append(@, o.k = "spawn_future"),
                              !.sc = Append(IF o.k = "sspawn" THEN [s.sc EXCEPT ![t+1] = @ \cup {o.v}] ELSE s.sc, {}),
-                             !.nm = Append(@, IF o.k = "spawn_named" THEN o.v ELSE -1)])
+                             !.nm = Append(@, IF o.k = "spawn_named" THEN o.v ELSE -1),
+                             !.lbl = Append(@, s.lbl[t+1])])
     [] o.k = "join" -> R(s.retv[ChildId(s, o.v) + 1], base)
     [] o.k \in {"yield", "spin"} -> R(0, Wake(base, t))
     [] o.k \in {"sleep", "nop", "scope_begin", "bo_begin"} -> R(0, base)
@@ -416,6 +418,9 @@ Complete(s, t) ==
     \* ---- identity
     [] o.k = "tid" -> R(t, base)
     [] o.k = "name" -> R(s.nm[t+1], base)
+    \* labels: set returns the previous label of the task (-1 = none); every task starts with its parent's labels
+    [] o.k = "label_set" -> R(s.lbl[t+1], [base EXCEPT !.lbl[t+1] = o.v])
+    [] o.k = "label_get" -> R(s.lbl[t+1], base)
     \* ---- BatchSemaphore
     [] o.k = "acquire" ->
          LET sm == s.sem[o.o+1] IN
